@@ -117,8 +117,20 @@ def build_harness(name, kind="dbg", extra_flags=(), libs=()):
     return binary
 
 
+@contextmanager
+def lean_locked():
+    (LEAN / ".lake").mkdir(parents=True, exist_ok=True)
+    f = open(LEAN / ".lake" / "verif.lock", "w")
+    try:
+        fcntl.flock(f, fcntl.LOCK_EX)
+        yield
+    finally:
+        fcntl.flock(f, fcntl.LOCK_UN)
+        f.close()
+
+
 def lean_build(targets):
-    with locked("lean"):
+    with lean_locked():
         rc, o, e = sh(["lake", "build"] + list(targets), cwd=str(LEAN))
     return rc, o + e
 
@@ -443,14 +455,15 @@ def audit(prop):
     res["forbidden"] = grep_forbidden()
     if res["forbidden"]:
         res["ok"] = False
-    obl_file = VERIF / "obligations.json"
-    names = json.loads(obl_file.read_text()).get(prop, [])
-    lock = json.loads((VERIF / "statements.lock").read_text()) if (VERIF / "statements.lock").exists() else {}
+    obl_file = VERIF / "obligations" / (prop + ".json")
+    names = json.loads(obl_file.read_text()) if obl_file.exists() else []
+    lock_file = VERIF / "locks" / (prop + ".json")
+    lock = json.loads(lock_file.read_text()) if lock_file.exists() else {}
     if not names:
         res["ok"] = False
         return res
     # generated audit file
-    auddir = BUILD / "audit"
+    auddir = LEAN / ".lake" / "audit"
     auddir.mkdir(parents=True, exist_ok=True)
     af = auddir / ("Audit%s.lean" % prop)
     body = ["import BFL.Props.%s" % prop, "open BFL", "set_option pp.fieldNotation.generalized false", "set_option linter.all false"]
@@ -461,7 +474,7 @@ def audit(prop):
         body.append("#print axioms %s" % nm)
         body.append('#eval IO.println "@@END %s"' % nm)
     af.write_text("\n".join(body) + "\n")
-    with locked("lean"):
+    with lean_locked():
         rc, o, e = sh(["lake", "env", "lean", str(af)], cwd=str(LEAN))
     txt = o + e
     res["audit_log"] = txt[-3000:] if rc != 0 else ""
@@ -491,9 +504,9 @@ def audit(prop):
                 ob["stmt_hash"] = h
                 want = lock.get(nm)
                 if want is None:
-                    ob["why"] = "statement not in statements.lock"
+                    ob["why"] = "statement not in locks/<id>.json"
                 elif want["hash"] != h:
-                    ob["why"] = "statement differs from statements.lock"
+                    ob["why"] = "statement differs from locks/<id>.json"
                 else:
                     ob["ok"] = True
         if not ob["ok"]:
@@ -506,7 +519,7 @@ def leanchecker(modules):
     """independent re-check of compiled oleans (thorough tier)"""
     bad = []
     for m in modules:
-        with locked("lean"):
+        with lean_locked():
             rc, o, e = sh(["lake", "env", "leanchecker", m], cwd=str(LEAN), timeout=3600)
         if rc != 0:
             bad.append((m, (o + e)[-500:]))
